@@ -28,6 +28,8 @@ pub enum PlanDesc {
     DocRow { which: u8 },
     /// a service class written in the service object format
     Service,
+    /// two instances of an unknown class carrying values a, b of the alphabet of `ty` (every wire type's layout)
+    TypePair { ty: String, a: usize, b: usize },
 }
 
 pub const MENU_CLASSES: [&str; 3] = ["ZzUnknownThing", "Part", "Folder"];
@@ -83,6 +85,12 @@ pub fn plan_of(d: &PlanDesc) -> Plan {
                 _ => Variant::Content(Content::from_uri("rbxassetid://5")),
             };
             Plan { nodes: vec![PNode { class: "ZzUnknownThing".into(), name: "row".into(), parent: None, props: vec![("V".into(), PVal::V(v))] }], roots: RootSel::Nodes(vec![]) }
+        }
+        PlanDesc::TypePair { ty, a, b } => {
+            let t = crate::vals::binary_types().into_iter().find(|t| crate::vals::type_name(*t) == *ty).expect("type");
+            let al = crate::vals::alphabet(t, Codec::Binary, false);
+            let mk = |k: usize, i: usize| PNode { class: "ZzUnknownThing".into(), name: format!("v{}", k), parent: None, props: vec![("V".into(), PVal::V(al[i].v.clone()))] };
+            Plan { nodes: vec![mk(0, *a), mk(1, *b)], roots: RootSel::Nodes(vec![]) }
         }
         PlanDesc::Service => Plan {
             nodes: vec![
@@ -368,6 +376,35 @@ pub fn cases(tier: Tier) -> Vec<Case04> {
             let mut e = enc::base_encoding(&plan_of(&pd));
             e.switches_impl = imp;
             out.push(Case04 { plan: pd, enc: e, dim: if imp { "doc-row-impl-reading".into() } else { "doc-row-document-reading".into() } });
+        }
+    }
+    // every wire type's layout, as the document describes it, for every alphabet value (in a two-instance column)
+    for t in crate::vals::binary_types() {
+        let al = crate::vals::alphabet(t, Codec::Binary, false);
+        let n = al.len();
+        // (an Attributes value under a property unknown to the database is covered through
+        // Part.AttributesSerialize in the topology menu)
+        if n == 0 || t == rbx_dom_weak::types::VariantType::Attributes || enc::type_id_of(&PVal::V(al[0].v.clone())).is_none() {
+            continue;
+        }
+        // a rotation that rbx_binary's *writer* would snap to a basis is written verbatim by the
+        // independent encoder; the expectation model describes the writer, so those values are left
+        // to C01/C03
+        let snaps = |v: &Variant| -> bool {
+            match v {
+                Variant::CFrame(c) => crate::vals::snap_rotation(&c.orientation) != c.orientation,
+                Variant::OptionalCFrame(Some(c)) => crate::vals::snap_rotation(&c.orientation) != c.orientation,
+                _ => false,
+            }
+        };
+        for i in 0..n {
+            if snaps(&al[i].v) || snaps(&al[(i + 1) % n].v) {
+                continue;
+            }
+            let pd = PlanDesc::TypePair { ty: crate::vals::type_name(t), a: i, b: (i + 1) % n };
+            let mut e = enc::base_encoding(&plan_of(&pd));
+            e.comp = vec![[Comp::None, Comp::Lz4, Comp::Zstd][i % 3]];
+            out.push(Case04 { plan: pd, enc: e, dim: format!("type-layout:{}", crate::vals::type_name(t)) });
         }
     }
     for (dim, e) in encodings_for(&PlanDesc::Service, tier) {
